@@ -34,7 +34,7 @@ func TestVerif(t *testing.T) {
 }
 
 type sop struct {
-	K string `json:"k"`           // newpart write seekstart seekcur finalize openpart openfile readn drain close remove
+	K string `json:"k"`           // newpart write rewriteprev seekstart seekcur finalize openpart openfile readn drain close remove
 	A int    `json:"a,omitempty"` // argument (payload index, offset, part index, reader index, n)
 	B int    `json:"b,omitempty"` // second argument (buffer size for drain; write: 1 / 2 = preceded by a refused seek)
 	Z bool   `json:"z,omitempty"` // readn / drain: a zero-length Read precedes every Read (it must not consume anything)
@@ -72,10 +72,12 @@ type mstate struct {
 	removed    bool
 	readers    []*mreader
 	totalLimit int
+	// written / prevWritten: a writer has been obtained for the last part / for the part before it
+	written, prevWritten bool
 }
 
 func (s *mstate) clone() *mstate {
-	n := &mstate{pos: s.pos, sealed: s.sealed, finalized: s.finalized, removed: s.removed, totalLimit: s.totalLimit}
+	n := &mstate{pos: s.pos, sealed: s.sealed, finalized: s.finalized, removed: s.removed, totalLimit: s.totalLimit, written: s.written, prevWritten: s.prevWritten}
 	for _, p := range s.parts {
 		n.parts = append(n.parts, append([]byte(nil), p...))
 	}
@@ -92,7 +94,7 @@ func (s *mstate) key() string {
 		b.WriteString(string(p))
 		b.WriteByte('|')
 	}
-	fmt.Fprintf(&b, "#%d,%v,%v,%v", s.pos, s.sealed, s.finalized, s.removed)
+	fmt.Fprintf(&b, "#%d,%v,%v,%v,%v,%v", s.pos, s.sealed, s.finalized, s.removed, s.written, s.prevWritten)
 	for _, r := range s.readers {
 		fmt.Fprintf(&b, ";%v,%d,%d,%s", r.file, r.part, r.off, r.data)
 	}
@@ -163,6 +165,16 @@ func (s *mstate) enabled(cfg c17cfg) []sop {
 				}
 			}
 			// (writes preceded by a refused seek are generated with the writes above)
+			// rewriting the head of the previous part in place through the writer obtained for it (kept across NewPart):
+			// nothing grows, every back end has the bytes at a fixed place
+			if last >= 1 && len(s.readers) == 0 {
+				for i, p := range c17Payloads[last-1] {
+					if len(p) >= 1 && len(p) <= len(s.parts[last-1]) && s.prevWritten && string(s.parts[last-1][:len(p)]) != p {
+						ops = append(ops, sop{K: "rewriteprev", A: i})
+						break // one rewrite that changes something is enough per state
+					}
+				}
+			}
 		}
 		ops = append(ops, sop{K: "finalize"})
 	}
@@ -197,9 +209,14 @@ func (s *mstate) apply(o sop) []byte {
 	last := len(s.parts) - 1
 	switch o.K {
 	case "newpart":
+		s.prevWritten = len(s.parts) > 0 && s.written
+		s.written = false
 		s.parts = append(s.parts, []byte{})
 		s.pos = 0
 		s.sealed = false
+	case "rewriteprev":
+		p := []byte(c17Payloads[last-1][o.A])
+		copy(s.parts[last-1], p)
 	case "write":
 		p := []byte(c17Payloads[last][o.A])
 		buf := s.parts[last]
@@ -212,6 +229,7 @@ func (s *mstate) apply(o sop) []byte {
 		}
 		s.parts[last] = buf
 		s.pos += len(p)
+		s.written = true
 	case "seekstart":
 		s.pos = o.A
 	case "seekcur":
@@ -249,12 +267,14 @@ func (s *mstate) apply(o sop) []byte {
 
 // impl is one real back end under test.
 type impl struct {
-	name    string
-	file    File
-	parts   []Part
-	writer  io.WriteSeeker
-	readers []io.ReadCloser
-	path    string
+	name   string
+	file   File
+	parts  []Part
+	writer io.WriteSeeker
+	// prevWriter: the writer of the part before the last one (kept across NewPart)
+	prevWriter io.WriteSeeker
+	readers    []io.ReadCloser
+	path       string
 }
 
 func (im *impl) cleanup(finalized bool) {
@@ -322,7 +342,19 @@ func (im *impl) step(o sop, want []byte) (err error) {
 	case "newpart":
 		p := im.file.NewPart()
 		im.parts = append(im.parts, p)
+		im.prevWriter = im.writer
 		im.writer = nil
+	case "rewriteprev":
+		p := []byte(c17Payloads[len(im.parts)-2][o.A])
+		if im.prevWriter == nil {
+			return fmt.Errorf("harness: no writer was obtained for the previous part")
+		}
+		if _, err := im.prevWriter.Seek(0, io.SeekStart); err != nil {
+			return fmt.Errorf("Seek(0, start) on the previous part's writer: %v", err)
+		}
+		if n, err := im.prevWriter.Write(p); err != nil || n != len(p) {
+			return fmt.Errorf("Write(%q) on the previous part's writer = %d, %v", p, n, err)
+		}
 	case "write", "seekstart", "seekcur":
 		if im.writer == nil {
 			im.writer = im.parts[len(im.parts)-1].Writer()
